@@ -61,7 +61,7 @@ class Model:
             for a in s.accesses:
                 if a.kind == "store" and a.idx is None and a.value_node is not None:
                     src = A.this_field(a.value_node)
-                    if src in self.alloc and a.base not in self.alloc:
+                    if src in self.alloc and (a.base not in self.alloc or a.base in ("_wakelosses", "_formfactor", "_bp_padded", "_wakepotential_padded")) and src != a.base:
                         self.alloc[a.base] = dict(self.alloc[src], alias_of=src)
         A.require(len(self.plans) == 2, "ElectricField: expected two FFT plans, found %s" % sorted(self.plans))
         for nm in self.OPS:
